@@ -16,9 +16,68 @@ def showErr : Err → String
   | .invalidDenom => "err:invalidDenom" | .notEligible => "err:notEligible"
   | .insufficientFunds => "err:insufficientFunds" | .invalidCoins => "err:invalidCoins"
 
+/-! The state components are functions, and what the model's operations return are towers of closures that re-run the
+    operation at every lookup.  After each operation the driver replaces them by pointwise-equal copies that answer
+    from a table on the first 16 addresses and `M` denominations (and from the original function elsewhere). -/
+def tab1 (n : Nat) (f : Nat → Nat) : Array Nat := ((List.range n).map f).toArray
+def fromTab1 (t : Array Nat) (f : Nat → Nat) : Nat → Nat := fun d => match t[d]? with | some v => v | none => f d
+def tab2 (n m : Nat) (f : Nat → Nat → Nat) : Array (Array Nat) := ((List.range n).map fun a => tab1 m (f a)).toArray
+def fromTab2 (t : Array (Array Nat)) (f : Nat → Nat → Nat) : Nat → Nat → Nat :=
+  fun a d => match t[a]? with
+    | some r => (match r[d]? with | some v => v | none => f a d)
+    | none => f a d
+def tabB (n : Nat) (f : Nat → Bool) : Array Bool := ((List.range n).map f).toArray
+def fromTabB (t : Array Bool) (f : Nat → Bool) : Nat → Bool := fun a => match t[a]? with | some v => v | none => f a
+
+def normState (M : Nat) (s : State) : State :=
+  { s with bal := fromTab2 (tab2 16 M s.bal) s.bal, total := fromTab1 (tab1 M s.total) s.total,
+           holders := fromTabB (tabB 16 s.holders) s.holders, modBal := fromTab1 (tab1 M s.modBal) s.modBal,
+           bank := fromTab2 (tab2 16 M s.bank) s.bank }
+
+theorem range_map_get {β : Type} (n : Nat) (f : Nat → β) (d : Nat) (v : β)
+    (h : ((List.range n).map f).toArray[d]? = some v) : v = f d := by
+  rw [List.getElem?_toArray, List.getElem?_map] at h
+  by_cases hd : d < n
+  · rw [List.getElem?_range hd] at h
+    simpa using h.symm
+  · rw [List.getElem?_eq_none (by simpa using hd)] at h
+    cases h
+
+theorem fromTab1_tab1 (n : Nat) (f : Nat → Nat) : fromTab1 (tab1 n f) f = f := by
+  funext d
+  simp only [fromTab1, tab1]
+  cases h : ((List.range n).map f).toArray[d]? with
+  | none => rfl
+  | some v => exact range_map_get n f d v h
+
+theorem fromTabB_tabB (n : Nat) (f : Nat → Bool) : fromTabB (tabB n f) f = f := by
+  funext d
+  simp only [fromTabB, tabB]
+  cases h : ((List.range n).map f).toArray[d]? with
+  | none => rfl
+  | some v => exact range_map_get n f d v h
+
+theorem fromTab2_tab2 (n m : Nat) (f : Nat → Nat → Nat) : fromTab2 (tab2 n m f) f = f := by
+  funext a d
+  simp only [fromTab2, tab2]
+  cases h : ((List.range n).map fun a => tab1 m (f a)).toArray[a]? with
+  | none => rfl
+  | some r =>
+    have hr := range_map_get n (fun a => tab1 m (f a)) a r h
+    simp only
+    cases h2 : r[d]? with
+    | none => rfl
+    | some v =>
+      rw [hr] at h2
+      exact range_map_get m (f a) d v h2
+
+/-- the table-backed copy is the same state -/
+theorem normState_eq (M : Nat) (s : State) : normState M s = s := by
+  simp only [normState, fromTab1_tab1, fromTab2_tab2, fromTabB_tabB]
+
 def apply (st : St) (r : Except Err State) : St × String :=
   match r with
-  | .ok s' => ({ st with s := s' }, "ok")
+  | .ok s' => ({ st with s := normState st.M s' }, "ok")
   | .error e => (st, showErr e)
 
 def dump (st : St) (N : Nat) : String :=
